@@ -241,23 +241,53 @@ def run(ctx):
             r['id'] = 'real-%d' % r['id']
         rv, rst = tracecheck.validate(routs, 'ExpectTrace', ctx.work, constants=TRACE_CONSTS, procs=8, tag='realtr')
         rcnt = Counter(v[0] for v in rv.values())
-        real_note = '%d calls on real transports (%s) validated: %s' % (len(routs), ', '.join(CT.TRANSPORTS),
-                                                                       ', '.join('%s x%d' % kv for kv in sorted(rcnt.items())))
+        nbase, nrem = CT.corpus.counts
+        real_note = ('%d histories on real transports (%s; fd and pty transports alternately with select and poll; bytes and unicode): '
+                     '%d with the default read size, 2 calls at the end of the stream; %d with a read size that leaves a remainder of '
+                     'the last chunk behind when the stream ends (maxread 1, 2, 3, 5 on 3-7 characters; the default 2000 on %d), '
+                     '3 calls at the end of the stream; validated: %s' % (
+                         len(routs), ', '.join(CT.TRANSPORTS), nbase, nrem, CT.LONG, ', '.join('%s x%d' % kv for kv in sorted(rcnt.items()))))
         ctx.note(real_note)
-        for r in routs:
-            v, at = rv[r['id']]
-            if v.startswith('harness:'):
-                raise tlc.TLCError('harness-level verdict on real transport: %s %s' % (v, r['meta']))
-            own = [x for x in rst['all'].get(r['id'], [v]) if x.startswith('C04:')]
-            if own:
-                v = own[0]
-            if v != 'ok' and v.startswith('C04:'):
-                ctx.fail(v, {'real_transport': r['meta']}, detail={'event_index': at, 'events': r['ev'][:at]},
-                         signature={'transport': r['meta']['transport'], 'unicode': r['meta']['unicode']})
+
+        def own_clauses(r, rv_, rst_):
+            v_, at_ = rv_[r['id']]
+            if v_.startswith('harness:'):
+                raise tlc.TLCError('harness-level verdict on real transport: %s %s' % (v_, r['meta']))
+            return [x for x in rst_['all'].get(r['id'], [v_]) if x.startswith('C04:')], at_
+        suspects = [r for r in routs if own_clauses(r, rv, rst)[0]]
+        confirmed = {}
+        if suspects:
+            # real processes are involved: a failing history is re-run twice and counts only if it fails every time
+            again = []
+            for r in suspects[:200]:
+                m = r['meta']
+                for rep in (1, 2):
+                    again.append((ctx.work, '%s-again%d' % (r['id'], rep), m['transport'], m['unicode'], m['ending'], m['entry'], m['pats'],
+                                  m['stream'], m.get('opts', {})))
+            with Pool(12) as pool:
+                routs2 = pool.map(CT.run_case, again, chunksize=2)
+            errs = [r for r in routs2 if 'error' in r]
+            if errs:
+                raise tlc.TLCError('real-transport re-run crashed: %s\n%s' % (errs[0]['meta'], errs[0]['error']))
+            rv2, rst2 = tracecheck.validate(routs2, 'ExpectTrace', ctx.work, constants=TRACE_CONSTS, procs=8, tag='realtr2')
+            for r in suspects[:200]:
+                if all(own_clauses(r2, rv2, rst2)[0] for r2 in routs2 if r2['id'] in ('%s-again1' % r['id'], '%s-again2' % r['id'])):
+                    confirmed[r['id']] = True
+            if len(confirmed) < len(suspects[:200]):
+                ctx.note('%d failing real-transport histories did not fail again when re-run twice: not counted' % (len(suspects[:200]) - len(confirmed)))
+        for r in suspects:
+            if r['id'] not in confirmed:
+                continue
+            own, at = own_clauses(r, rv, rst)
+            ctx.fail(own[0], {'real_transport': r['meta']}, detail={'event_index': at, 'events': r['ev'][:at], 'all_failing_clauses': own},
+                     signature={'transport': r['meta']['transport'], 'unicode': r['meta']['unicode']})
         uniq_real = routs
         with Pool(12) as pool:
             nint = CT.interleaved(ctx, pool)
-        ctx.note('%d single-call interleavings of the PtyRead state graph replayed at the expect level on a real pty child: EOF only with all output in before, EOF again afterwards' % nint)
+        ctx.note('%d replays at the expect level of the single-call interleavings of the TLC state graphs - PtyRead on a real pty child (%d; select / poll), '
+                 'FdRead on pipe / FIFO / pty / socket / TCP descriptors x select / poll (%d; urgent data on TCP) - followed by three more calls after '
+                 'the peer has gone: EOF only with all output in before, the end of the stream is EOF and never TIMEOUT, EOF again afterwards' % (
+                     nint, CT.interleaved.per['pty'], CT.interleaved.per['fd']))
     st_self = self_test(ctx, uniq, verdicts)
     ctx.note('binding self-test: ' + ', '.join('%s -> %s' % kv for kv in sorted(st_self.items())))
     # "every call's outcome equals that of the naive procedure" (C03) is also broken when the call returns at the
@@ -310,6 +340,13 @@ def run(ctx):
 
 def replay(ctx):
     d = json.load(open(ctx.replay))
+    if 'real_transport' in d['case'] or d['case'].get('level') == 'expect':
+        from . import c04_transports as CT
+        os.chdir(ctx.work)
+        st = CT.replay_case(ctx, d['case'])
+        if st == 1:
+            print('VIOLATION property=%s replay=%s' % (ctx.pid, ctx.replay))
+        return st
     meta = d['case']['meta']
     ev = rerun(meta)
     v, _ = tracecheck.validate([{'id': 'replay', 'ev': ev}], 'ExpectTrace', ctx.work, constants=TRACE_CONSTS, procs=1,
